@@ -115,6 +115,14 @@ def oracle(case, obs):
             return f"codeB2ToB64(codeB64ToB2({s!r})) raised {type(ex).__name__}"
         if back != s:
             return f"codeB2ToB64(codeB64ToB2({s!r}), {len(s)}) = {back!r}"
+        # extracting the first l sextets from binary keeps exactly the leading characters
+        for l in range(1, len(s)):
+            try:
+                pre = helping.codeB2ToB64(bytes.fromhex(r[1]), l)
+            except Exception as ex:
+                return f"codeB2ToB64(codeB64ToB2({s!r}), {l}) raised {type(ex).__name__}: {ex}"
+            if pre != s[:l]:
+                return f"codeB2ToB64(codeB64ToB2({s!r}), {l}) = {pre!r}, expected {s[:l]!r}"
     if k == "nab" and r[0] == "ok":
         b, l = bytes.fromhex(case["b"]), case["l"]
         out = bytes.fromhex(r[1])
